@@ -3,8 +3,8 @@
 # (patch regenerated against /repo HEAD), runs the quick check against it and records which entries caught it.
 set -u
 P=$1; N=$2; TIER=${3:-quick}
-WT=/tmp/wt-$P
-D=/verif/seeded/$P-$N
+WT=${WT:-/tmp/wt-$P}
+D=/verif/seeded/$P-${SEEDNAME:-$N}
 export GOFLAGS=-mod=mod GOPROXY=off GOSUMDB=off GOTOOLCHAIN=local
 mkdir -p $D
 cd /repo || exit 2
